@@ -138,6 +138,33 @@ def _run_main(ctx):
             ctx.violate(case, "type check " + ("rejects a consistent graph" if want else "accepts a graph with a mismatched edge"),
                         {"site": "_check_types", "what": "false-reject" if want else "false-accept", "target": k},
                         observed={"accepted": got, "error": err})
+    # an edge one of whose ends is a node with several ports addressed as a whole (a nested graph with two Inputs / two
+    # Outputs): there is no single shape to compare, so the check cannot succeed - it raises
+    for _ in range(ctx.n(20, 100)):
+        s0 = [rng.randrange(2, 5)]
+        two_in = rng.random() < 0.5
+        try:
+            if two_in:
+                inner = _nir.NIRGraph(nodes={"i1": _nir.Input(np.array(s0)), "i2": _nir.Input(np.array(s0)), "s": _nir.Scale(np.ones(s0)),
+                                             "o": _nir.Output(np.array(s0))}, edges=[("i1", "s"), ("i2", "s"), ("s", "o")])
+                g = _nir.NIRGraph(nodes={"a": _nir.Scale(np.ones(s0)), "sub": inner}, edges=[("a", "sub")])
+            else:
+                inner = _nir.NIRGraph(nodes={"i": _nir.Input(np.array(s0)), "s": _nir.Scale(np.ones(s0)),
+                                             "o1": _nir.Output(np.array(s0)), "o2": _nir.Output(np.array(s0))},
+                                      edges=[("i", "s"), ("s", "o1"), ("s", "o2")])
+                g = _nir.NIRGraph(nodes={"sub": inner, "b": _nir.Scale(np.ones(s0))}, edges=[("sub", "b")])
+        except Exception:
+            ctx.count("construct_rejected"); continue
+        case = {"op": "multi_port_endpoint", "two_inputs": two_in, "shape": s0}
+        ctx.case(case); ctx.count("multi_port_endpoint")
+        try:
+            with _quiet():
+                got = g._check_types() is True
+        except Exception:
+            got = False
+        if got:
+            ctx.violate(case, "type check accepts an edge onto a node with several ports addressed as a whole",
+                        {"site": "_check_types", "what": "false-accept", "target": "multi-port"}, observed={"accepted": True})
     # a graph whose *port* nodes were re-typed after construction (consistently with their neighbours): the verdict is
     # about the edges as they are now, not about the graph-level snapshot taken at construction
     for _ in range(ctx.n(40, 200)):
